@@ -18,6 +18,7 @@ import SF.Lemmas.Lagf
 import SF.Lemmas.Roof
 import SF.Lemmas.LagRsi
 import SF.Lemmas.Flex
+import SF.Lemmas.CyberCycle
 /-
   C15 — No panic: every constructed view accepts every finite in-domain stream.
 
@@ -181,6 +182,9 @@ theorem laguerreFilter_noPanic (g : α) : (lagfCore (α := α) g).NoPanic :=
 /-- RoofingFilter: the unchecked core never panics for any N; the constructor rejects N < 2 (`roofing_ctor`) -/
 theorem roofing_noPanic (N M' : Nat) (hM : 0 < M') : (roofCoreU (α := α) N M').NoPanic :=
   noPanic_of_outAfter _ _ (Roof.outAfter_eq N M' hM)
+/-- CyberCycle: no panic for any N the constructor accepts (`cc_ctor`: exactly N ≥ 6) -/
+theorem cyberCycle_noPanic (N : Nat) (hN : 6 ≤ N) : (ccCoreU (α := α) N).NoPanic :=
+  noPanic_of_outAfter _ _ (CC.cyberCycle_eq N hN)
 theorem trendFlex_noPanic (N : Nat) (hN : 3 ≤ N) : (tflexCore (α := α) N).NoPanic :=
   noPanic_of_outAfter _ _ (Flex.trendFlex_eq N hN)
 theorem reFlex_noPanic (N : Nat) (hN : 3 ≤ N) : (rflexCore (α := α) N).NoPanic :=
